@@ -124,6 +124,19 @@ theorem qscan_escape (s rest : Str) : qscan false (escape s ++ '"' :: rest) = so
     · subst h3; simpa [esc1, qscan] using ih
     simpa [esc1, qscan, h1, h2, h3] using ih
 
+/-- the HELP escaping of the text format produces a docstring of the text format: every backslash it writes is half of
+`\\\\` or starts `\\n`, and it writes no other backslash and no raw LF -/
+theorem hscan_escapeHelp (s : Str) : hscan false (escapeHelp s) = true := by
+  induction s with
+  | nil => simp [hscan]
+  | cons c cs ih =>
+    rw [escapeHelp_cons]
+    by_cases h1 : c = '\\'
+    · subst h1; simpa [hesc1, hscan] using ih
+    by_cases h2 : c = '\n'
+    · subst h2; simpa [hesc1, hscan] using ih
+    simpa [hesc1, hscan, h1, h2] using ih
+
 /-- the same statement for the sample-line automaton -/
 theorem run_escape (om : Bool) (k : Q) (s : Str) : run om (.q k false) (escape s) = .q k false := by
   induction s with
